@@ -1,2 +1,125 @@
-From Coq Require Import List.
-Theorem placeholder_c15 : True. Proof. exact I. Qed.
+(* C15 (TRANSFAC part) -- the reader never panics or hangs on malformed input.
+
+   Model: TransfacReader.run_reader = `Reader::new` followed by a consumer calling `next`
+   until the first error or the end of input, over a stream that delivers the bytes in
+   arbitrary chunks (Stream.v), with the record parser of parse.rs (TransfacParse.v).
+   `Panic n` marks the three places where the Rust code can panic (slice `[last..]` out of
+   bounds / inside a character, `unreachable!()` on nom's Incomplete); `OutOfFuel` marks a
+   loop of the code that would not end.  Only theorem statements here; proofs are in
+   NomProofs / ParseProofs / ReaderProofs / CheckProofs. *)
+From Coq Require Import List Bool Arith.
+From Coq Require Import Init.Byte.
+From LMBase Require Import Res.
+From LMTransfac Require Import Bytes Stream Nom TransfacParse TransfacReader Checkers.
+From LMTransfac Require Import StreamProofs NomProofs ParseProofs ReaderProofs CheckProofs.
+Import ListNotations.
+
+(* The record parser answers Ok / Error / Failure on every input: nom's Incomplete (which
+   error.rs turns into `unreachable!()`) is never produced and none of its loops (many1,
+   separated_list1, the RX/RA/RL/RT loop, the loop over the tagged lines) runs for ever. *)
+Theorem parser_total : forall (al : alpha) (input : str),
+  parse_record_fixed al input <> PIncomplete /\ parse_record_fixed al input <> PFuel.
+Proof. exact parse_record_fixed_total. Qed.
+
+(* Every byte string, every chunking: `Reader::new` and every `next` return a record, an
+   error or the end of input -- never Panic, never OutOfFuel -- and the consumer stops:
+   the outcome list is finite, records followed by exactly one error or End. *)
+Theorem reader_total : forall (al : alpha) (s : stream),
+  exists l, run_reader (parse_record_fixed al) s = Ok l /\
+            exists rs o, l = map ORec rs ++ [o] /\ (o = OEnd \/ exists e, o = OErr e).
+Proof.
+  intros al s.
+  destruct (run_reader_total (parse_record_fixed al) (parse_record_fixed_total al) s)
+    as (l & H & rs & o & -> & Ho).
+  exists (map ORec rs ++ [o]). split; [exact H|]. exists rs, o. split; [reflexivity|].
+  destruct o; simpl in Ho; [discriminate|right; eauto|left; reflexivity].
+Qed.
+
+(* The same for any record parser that is total: the reader's own code (offsets, loops)
+   contributes no panic and no hang. *)
+Theorem reader_total_generic : forall (parse : parser record),
+  (forall i, parse i <> PIncomplete /\ parse i <> PFuel) ->
+  forall s : stream, exists l, run_reader parse s = Ok l /\ shape l.
+Proof. exact run_reader_total. Qed.
+
+(* One step: from a state satisfying the reader's invariant (`last` = length of the buffer
+   or the offset of a line starting with "//" -- established by `new`, kept by `next`),
+   `next` returns, keeps the invariant, and a returned record strictly decreases the
+   consumer's measure (lines left in the stream + 1 if the buffer is not empty). *)
+Theorem reader_next_total : forall (al : alpha) (fuel : nat) (st : rstate),
+  st_inv st -> nlines (concat (st_src st)) < fuel ->
+  exists o st', reader_next (parse_record_fixed al) fuel st = Ok (o, st') /\ st_inv st' /\
+                nlines (concat (st_src st')) <= nlines (concat (st_src st)) /\
+                (is_rec o = true -> measure st' < measure st).
+Proof. intros al. apply reader_next_ok. exact (parse_record_fixed_total al). Qed.
+
+Theorem reader_new_total : forall (s : stream),
+  exists st, reader_new (stream_fuel s) s = Ok st /\ st_inv st.
+Proof.
+  intros s. destruct (reader_new_ok (stream_fuel s) s) as (st & H1 & H2 & _).
+  - pose proof (stream_fuel_ge s). apply Nat.lt_le_trans with (nlines (concat s) + 2); [|assumption].
+    rewrite Nat.add_comm. apply Nat.lt_succ_r, Nat.le_succ_diag_r.
+  - exists st. auto.
+Qed.
+
+(* The extracted checker used by the driver on the implementation's observations is sound
+   and complete for "records, then one error or End; no panic, no hang" ... *)
+Theorem check_c15_sound : forall o : list obs,
+  check_c15 o = true -> holds_c15 o /\ ~ In BPanic o /\ ~ In BHang o.
+Proof. intros o H. apply CheckProofs.check_c15_sound in H. split; [exact H|apply holds_c15_no_panic, H]. Qed.
+
+(* ... and the model passes it on every input: the property theorem in executable form. *)
+Theorem model_passes_c15 : forall (al : alpha) (s : stream),
+  check_c15 (observe_run (run_reader (parse_record_fixed al) s)) = true.
+Proof.
+  intros al s.
+  destruct (run_reader_total (parse_record_fixed al) (parse_record_fixed_total al) s) as (l & H & Hs).
+  rewrite H. simpl. apply check_c15_complete, shape_holds_c15, Hs.
+Qed.
+
+(* F18 (repaired in /repo by fe3ced2): with nom's *streaming* space1 in parse_alphabet, as
+   the code had it, the property is false -- the input "P0  " reaches `unreachable!()`. *)
+Theorem reader_total_streaming_refuted :
+  exists s : stream, run_reader (parse_record_streaming Dna) s = Panic 3.
+Proof. exists [["P"; "0"; " "; " "]%byte]. vm_compute. reflexivity. Qed.
+
+(* the same input with the repaired parser: a parse error *)
+Example f18_fixed :
+  run_reader (parse_record_fixed Dna) [["P"; "0"; " "; " "]%byte] = Ok [OErr ENom].
+Proof. vm_compute. reflexivity. Qed.
+
+Check parser_total : forall al input,
+  parse_record_fixed al input <> PIncomplete /\ parse_record_fixed al input <> PFuel.
+Check reader_total : forall al s,
+  exists l, run_reader (parse_record_fixed al) s = Ok l /\
+            exists rs o, l = map ORec rs ++ [o] /\ (o = OEnd \/ exists e, o = OErr e).
+Check model_passes_c15 : forall al s,
+  check_c15 (observe_run (run_reader (parse_record_fixed al) s)) = true.
+
+(* ---- non-vacuity: the model really reads records, reports errors and the end ---- *)
+Local Open Scope byte_scope.
+
+Definition ex_file : str :=
+  ["I";"D";" ";"x";x0a; "P";"0";" ";"A";" ";"C";x0a; "0";"1";" ";"1";" ";"2";x0a; "/";"/";x0a;
+   "I";"D";" ";"y";x0a; "/";"/"].
+
+Example ex_two_records :
+  exists r1 r2, run_reader (parse_record_fixed Dna) [ex_file] = Ok [ORec r1; ORec r2; OEnd] /\
+                r_id r1 = Some ["x"] /\ r_id r2 = Some ["y"] /\
+                r_data r1 = Some [[CTok ["1"]; CTok ["2"]; CZero; CZero; CZero]].
+Proof. eexists _, _. vm_compute. repeat split. Qed.
+
+(* invalid UTF-8 gives an I/O error, a ragged count row a parse error *)
+Example ex_invalid_utf8 :
+  run_reader (parse_record_fixed Dna) [["I";"D";" ";xff;x0a;"/";"/";x0a]] = Ok [OErr EIo].
+Proof. vm_compute. reflexivity. Qed.
+
+Example ex_ragged :
+  run_reader (parse_record_fixed Dna)
+    [["P";"0";" ";"A";" ";"C";x0a; "0";"1";" ";"1";x0a; "/";"/";x0a]] = Ok [OErr ENom].
+Proof. vm_compute. reflexivity. Qed.
+
+(* the invariant with `last` inside the buffer occurs: after `new` on a file without VV *)
+Example ex_inv_offset :
+  exists st, reader_new 10 [ex_file] = Ok st /\ st_last st = 19 /\ length (st_buf st) = 22.
+Proof. eexists. vm_compute. repeat split. Qed.
